@@ -63,6 +63,30 @@ fn main() {
             println!("{:?}", st.counters);
             0
         }
+        "c18" => {
+            // rngsim c18 <tier> name=path name=path ...
+            let scn = props::scenario("C18").unwrap();
+            let seed = engine::env_u64("VERIF_SEED", 1);
+            let bins: Vec<(String, String)> = args[3..]
+                .iter()
+                .filter_map(|a| a.split_once('=').map(|(n, p)| (n.to_string(), p.to_string())))
+                .collect();
+            engine::parent_c18(scn.as_ref(), tier_of(&args[2]), seed, &bins)
+        }
+        "corpus-one" => {
+            // prints the per-operation digests of one corpus spec (replay file or bare spec)
+            let txt = std::fs::read_to_string(&args[2]).expect("read");
+            let spec: spec::Spec = match serde_json::from_str::<engine::ReplayFile>(&txt) {
+                Ok(rf) => rf.spec,
+                Err(_) => serde_json::from_str(&txt).expect("spec"),
+            };
+            let mut st = spec::Stats::default();
+            let v = props::c18::exec_corpus(&spec, &mut st);
+            println!("{}", v.iter().map(|x| x.to_string()).collect::<Vec<_>>().join(" "));
+            0
+        }
+        "c19run" => props::c19::proc_main("c19run", &args[2]),
+        "alone" => props::c19::proc_main("alone", &args[2]),
         "replay" => engine::replay(&|id| props::scenario(id), &args[2]),
         other => {
             eprintln!("unknown mode {}", other);
